@@ -27,6 +27,7 @@ func Run(ctx *core.Ctx) {
 	add := func(c *Case) { c.ID = len(cases); cases = append(cases, c) }
 	gridCases(ctx, add)
 	directiveCases(add)
+	directiveStringCases(add)
 	commandCases(add)
 	registryCases(add)
 	msgBundleCases(add)
@@ -237,6 +238,64 @@ func directiveCases(add func(*Case)) {
 						Files: []core.File{{Name: "t.soy", Text: file}}, Entry: "t.m", NoIJ: true})
 				}
 			}
+		}
+	}
+}
+
+// directiveStringCases: every directive on adversarial STRING data (runs of
+// code points that escapers treat specially: several non-printable astral
+// characters, surrogate-range and invalid bytes, long runs, every ASCII
+// control character), with the directive's usual arguments.
+func directiveStringCases(add func(*Case)) {
+	var names []string
+	for n := range soyhtml.PrintDirectives {
+		names = append(names, n)
+	}
+	sort.Strings(names)
+	strs := map[string]string{
+		"two-astral-nonprintable": "\U000E0067\U000E0062", "flag-tag-sequence": "\U0001F3F4\U000E0067\U000E0062\U000E0065\U000E006E\U000E0067\U000E007F",
+		"three-private-use": "a\U000F0001b\U00100002c\U0010FFFD", "max-code-points": "\U0010FFFF\U0010FFFE\U0010FFFF", "astral-printable-run": strings.Repeat("\U0001F600", 40),
+		"invalid-utf8": "a\xff\xfe\xc3(\xe2\x82", "lone-continuations": "\x80\x80\x80", "bmp-nonprintable": "\u200b\u200e\u2028\u2029\ufeff\ufffe",
+		"controls": "\x00\x01\x07\x08\x0b\x0c\x0e\x1b\x1f\x7f", "long-specials": strings.Repeat("<&>\"'\\/", 300), "long-word": strings.Repeat("x", 5000),
+		"combining-run": "e" + strings.Repeat("\u0301", 200), "crlf-run": strings.Repeat("\r\n", 100), "percent-run": strings.Repeat("%", 100) + "%zz%4",
+	}
+	argsOf := map[string][]string{"truncate": {"", ":3", ":3,false", ":0", ":-1"}, "insertWordBreaks": {":1", ":2", ":5"}}
+	for _, d := range names {
+		al := argsOf[d]
+		if al == nil {
+			al = []string{""}
+		}
+		for sn, sv := range strs {
+			for _, a := range al {
+				file := "{namespace t}\n/** @param x */\n{template .m}\n{$x|" + d + a + "}{$x|noAutoescape|" + d + a + "}\n{/template}\n"
+				add(&Case{Family: "directive-strings", Feature: fmt.Sprintf("directive=%s%s,string=%s", d, a, sn), Kind: "render",
+					Files: []core.File{{Name: "t.soy", Text: file}}, Entry: "t.m", NoIJ: true, Data: map[string]core.V{"x": core.VStr(sv)}})
+			}
+		}
+	}
+	// termination of recursion that ends on a missing / undefined value
+	list := func(k int) core.V {
+		var v core.V
+		for i := k; i >= 1; i-- {
+			m := map[string]core.V{"val": core.VInt(i)}
+			if v != nil {
+				m["next"] = v
+			}
+			v = core.VMap(m)
+		}
+		return v
+	}
+	for k, body := range []string{
+		`{if $node}{$node.val}{call .a data="all"}{param node: $node.next /}{/call}{else}end{/if}`,
+		`{if $node}{$node.val}{call .a}{param node: $node.next /}{/call}{else}end{/if}`,
+		`{if $node}{$node.val}{call .a data="$node"}{param node: $node.next /}{/call}{else}end{/if}`,
+		`{if $node?.next}{call .a data="all"}{param node: $node.next /}{/call}{/if}{$node?.val ?: 'nil'}`,
+		`{foreach $i in $node?.kids ?: []}{call .a data="all"}{param node: $i /}{/call}{ifempty}leaf{/foreach}`,
+	} {
+		for _, depth := range []int{1, 2, 5} {
+			file := "{namespace r}\n/** @param? node */\n{template .a}\n" + body + "\n{/template}\n"
+			add(&Case{Family: "recursion", Feature: fmt.Sprintf("body=%d,depth=%d", k, depth), Kind: "render",
+				Files: []core.File{{Name: "r.soy", Text: file}}, Entry: "r.a", NoIJ: true, Data: map[string]core.V{"node": list(depth)}})
 		}
 	}
 }
